@@ -232,6 +232,22 @@ def zero_routes():
     return r
 
 
+def early_name_routes():
+    """Supplementary columns whose names sort before 'branch' ('alpha', 'Zeta'): marks given, guessed, or parsed from an export."""
+    import pygaps
+    k = kw()
+    base = {'pressure': [1.0, 2.0, 3.0, 2.0], 'loading': [1.0, 2.0, 3.0, 2.5], 'alpha': [5.0, 4.0, 3.0, 2.0], 'Zeta': [1.0, 1.5, 2.0, 2.5]}
+    def mk(cols, **extra):
+        return lambda: pygaps.PointIsotherm(isotherm_data=pandas.DataFrame({c: extra.get(c, base.get(c)) for c in cols}), pressure_key='pressure', loading_key='loading', **k)
+    r = {}
+    r['marks guessed'] = mk(['pressure', 'loading', 'alpha', 'Zeta'])
+    r['marks given, last column'] = mk(['pressure', 'loading', 'alpha', 'Zeta', 'branch'], branch=[0, 0, 0, 1])
+    r['marks given, first column'] = mk(['branch', 'Zeta', 'alpha', 'loading', 'pressure'], branch=[0, 0, 0, 1])
+    r['from_json(to_json)'] = lambda: pygaps.parsing.isotherm_from_json(r['marks guessed']().to_json())
+    r['from_csv(to_csv)'] = lambda: pygaps.parsing.isotherm_from_csv(r['marks guessed']().to_csv())
+    return r
+
+
 def container_routes():
     """Metadata holding a sequence / a NaN: what the identifier calls equal, == calls equal (for every class)."""
     import pygaps
@@ -333,6 +349,7 @@ def run(ctx):
     groups = [('simple', simple_routes(), 'list[float]'), ('decimal', decimal_routes(), 'list[float]'),
               ('decimal extra column', decimal_extra_routes(), 'extra column float64'), ('zeros', zero_routes(), '+0.0'),
               ('model with integer-valued content', model_int_routes(), 'float literals'), ('container metadata', container_routes(), 'list'),
+              ('early-named extra columns', early_name_routes(), 'marks guessed'),
               ('point', point_routes(), 'reference'), ('base', base_routes(), 'reference'),
               ('model', model_routes(), 'reference'), ('fitted model', fitted_routes(), 'list[float]')]
     ids_ref = {}
